@@ -342,7 +342,7 @@ def applyMut (l : Bits) (m : Mut) : Except Err (Bits × Option Int) :=
   | .invertAt i =>
     let j := if i < 0 then i + n else i
     if 0 ≤ j ∧ j < n then .ok (l.modify j.toNat (!·), none) else .error .index
-  | .setAll v => if n = 0 then .error .value else .ok (List.replicate n v, none)
+  | .setAll v => .ok (List.replicate n v, none)                 -- `if len(self) != 0: self._setint(-1 or 0)`
   | .setAt v i =>
     let j := if i < 0 then i + n else i
     if 0 ≤ j ∧ j < n then .ok (l.set j.toNat v, none) else .error .index
@@ -455,19 +455,19 @@ def findCommon (s : Stream) (pat : Bits) (start stop : Option Int) (aligned : Bo
     | some p => ({ s with pos := p }, .found (some p))
 
 def insertAt (s : Stream) (b : Bits) (p : Option Int) : Stream × Res :=
-  if b.isEmpty then (s, .unit) else
   let q := p.getD s.pos
   let q := if q < 0 then q + s.len else q
   if 0 ≤ q ∧ q ≤ s.len then
+    if b.isEmpty then (s, .unit) else                           -- nothing written: nothing moves
     ({ s with bits := s.bits.take q.toNat ++ b ++ s.bits.drop q.toNat, pos := q + b.length }, .unit)
   else (s, .err .value)
 
 /-- `BitStream.overwrite`: the slice `[q, q + len(bs))` is assigned (the bitstring grows when that runs past the end). -/
 def overwriteAt (s : Stream) (b : Bits) (p : Option Int) : Stream × Res :=
-  if b.isEmpty then (s, .unit) else
   let q := p.getD s.pos
   let q := if q < 0 then q + s.len else q
   if q < 0 ∨ q > s.len then (s, .err .value) else
+  if b.isEmpty then (s, .unit) else
   ({ s with bits := s.bits.take q.toNat ++ b ++ s.bits.drop (q.toNat + b.length), pos := q + b.length }, .unit)
 
 def replaceWith (s : Stream) (old new : Bits) (start stop : Option Int) (count : Option Int) (aligned : Bool) : Stream × Res :=
